@@ -11,6 +11,7 @@ Tie of the model to the code: Gen.Engine.lexerMode is re-observed on every run a
 `perCall_isolated` (= the oracle)."""
 import itertools
 import json
+import re
 import sys
 import threading
 
@@ -24,6 +25,7 @@ LEAN_MODULES = ['Yaql.Props.C01', 'Yaql.Props.C01Gen', 'Yaql.Props.C01Rules']
 REQUIRED_THEOREMS = ['Yaql.Props.C01.perCall_isolated', 'Yaql.Props.C01.sequential_reuse',
                      'Yaql.Props.C01.shared_not_isolated', 'Yaql.Props.C01.done_absorbing',
                      'Yaql.Props.C01Gen.engine_mode', 'Yaql.Props.C01Gen.current_engine_isolated',
+                     'Yaql.Props.C01Gen.all_entry_points_perCall',
                      'Yaql.Props.C01Rules.rules_blind_isolated', 'Yaql.Props.C01Rules.rules_reset_sequential',
                      'Yaql.Props.C01Rules.lookbehind_not_isolated', 'Yaql.Props.C01Rules.lookbehind_sandwich']
 TRUSTED = ['ply.lex.Lexer.token reads nothing but the lexer object it is called on (lexdata, lexpos) and the '
@@ -273,6 +275,8 @@ class PairCoverage:
 
 
 STYLES = ['plain', 'options', 'copy']
+# pairs of entry points for two concurrent parses: every combination (6 x 6), those through the same kind of object first
+STYLE_PAIRS = [(a, b) for a in STYLES + ['iface', 'iface-on', 'iface-on-early'] for b in STYLES + ['iface', 'iface-on', 'iface-on-early']]
 
 
 def styled(engine, style):
@@ -285,10 +289,94 @@ def styled(engine, style):
     return engine
 
 
+# ---- how a parse is requested: every public entry point that parses a text with (a lexer / parser of) one engine
+IFACE_STYLES = ['iface', 'iface-on', 'iface-on-early']
+ALL_STYLES = STYLES + IFACE_STYLES
+DATA = {'a': 1, 'b': [1, 2, 3], 'c': {'d': 'x'}, 'true': 5}
+_HEX = re.compile(r'0x[0-9a-fA-F]+')
+_entries = {}
+
+
+def eval_outcome(call, text):
+    """what a caller of an evaluating entry point observes: the value, the parsing error, or any other exception"""
+    from yaql.language import exceptions
+    try:
+        return ['val', repr(call(text))]
+    except exceptions.YaqlParsingException as e:
+        return ['err', type(e).__name__, e.position, str(e)]
+    except Exception as e:      # noqa
+        return ['exc', type(e).__name__, _HEX.sub('0x?', str(e))[:200]]
+
+
+class Entries:
+    """`YaqlInterface` objects on one engine: the root interface, interfaces derived with on(receiver) BEFORE the root
+    evaluated anything, and interfaces derived AFTER its first evaluation"""
+
+    def __init__(self, engine):
+        import yaql
+        from yaql import yaql_interface
+        self.root = yaql_interface.YaqlInterface(yaql.create_context(), engine)
+        self.early = [self.root.on(i) for i in range(3)]
+        self.root('1 + 1')
+        self.late = [self.root.on(i) for i in range(3)]
+
+    def interface(self, style, i):
+        return self.root if style == 'iface' else (self.late if style == 'iface-on' else self.early)[i % 3]
+
+
+def entries(engine):
+    if id(engine) not in _entries:
+        _entries[id(engine)] = (engine, Entries(engine))
+    return _entries[id(engine)][1]
+
+
+def request(engine, style, i, text):
+    """have `engine` parse `text` the way `style` says (thread / position i); -> the observable outcome"""
+    if style in IFACE_STYLES:
+        iface = entries(engine).interface(style, i)
+        return eval_outcome(lambda t: iface(t, DATA), text)
+    if style == 'yaql.eval':
+        import yaql
+        return eval_outcome(lambda t: yaql.eval(t, DATA), text)
+    return treeutil.parse_outcome(styled(engine, style), text)
+
+
+_ref_iface = {}
+_ref_eval_cache = {}
+
+
+def expected(style, text):
+    """the outcome of the same request when nothing else happens: on a fresh engine (trees), through a reference
+    interface used strictly sequentially (evaluating entry points; re-judged against a fresh engine by `confirm_eval`)"""
+    if style in IFACE_STYLES or style == 'yaql.eval':
+        if text not in _ref_eval_cache:
+            if not _ref_iface or _ref_iface['n'] >= 200:
+                _ref_iface.update(e=Entries(make_engine()), n=0)
+            _ref_iface['n'] += 1
+            _ref_eval_cache[text] = eval_outcome(lambda t: _ref_iface['e'].root(t, DATA), text)
+        return _ref_eval_cache[text]
+    return fresh(text)
+
+
+def confirm_expected(style, text, res):
+    if style in IFACE_STYLES or style == 'yaql.eval':
+        strict = eval_outcome(lambda t: Entries(make_engine()).root(t, DATA), text)
+        if strict != _ref_eval_cache.get(text, strict):
+            res.fail('oracle', 'history-dependence', 'YaqlInterface(..)(%r) on an interface that evaluated other texts before '
+                     'gave %r, a fresh engine and interface give %r' % (text, _ref_eval_cache[text], strict),
+                     dict(kind='history', texts=[text]))
+            _ref_eval_cache[text] = strict
+        return strict
+    return confirm(text, res)
+
+
 def run_schedule(engine, texts, schedule, cur, styles=None):
     styles = styles or ['plain'] * len(texts)
-    s = sched.Scheduler([(lambda t=t, st=st: treeutil.parse_outcome(styled(engine, st), t))
-                         for t, st in zip(texts, styles)])
+    for st in styles:
+        if st in IFACE_STYLES:
+            entries(engine)             # interfaces are made before the threads start
+    s = sched.Scheduler([(lambda t=t, st=st, i=i: request(engine, st, i, t))
+                         for i, (t, st) in enumerate(zip(texts, styles))])
     cur[0] = s
     try:
         results = s.run(schedule)
@@ -330,17 +418,21 @@ def run(env, res):
             hist_cases.append([rng.choice(pool) for _ in range(rng.randrange(2, 13))])
     else:
         hist_cases = [c['texts'] for c in cases if c.get('kind') == 'history']
-    for texts in hist_cases:
-        outs = [treeutil.parse_outcome(engine, t) for t in texts]
+    hist_styles = [c.get('style', 'plain') for c in cases if c.get('kind') == 'history'] if cases is not None else None
+    for k_hist, texts in enumerate(hist_cases):
+        # the history goes through one of the entry points (a third of them through the engine itself)
+        sty = hist_styles[k_hist] if hist_styles else (['plain', 'plain'] + ALL_STYLES)[k_hist % 8]
+        stats['entry:' + sty] = stats.get('entry:' + sty, 0) + 1
+        outs = [request(engine, sty, j, t) for j, t in enumerate(texts)]
         stats['histories'] += 1
         stats['invalid_texts'] += sum(1 for t in texts if fresh(t)[0] != 'ok')
         res.case(('h', tuple(texts)), nontrivial=len(set(texts)) > 1 and any(fresh(t)[0] != 'ok' for t in texts),
                  sample=dict(kind='history', texts=texts) if stats['histories'] <= 2 else None)
         for i, (t, o) in enumerate(zip(texts, outs)):
-            if o != fresh(t):
+            if o != expected(sty, t) and o != confirm_expected(sty, t, res):
                 report('oracle', 'history-dependence',
-                       'parse #%d of %r on a reused engine gave %r, a fresh engine gives %r (history %r)' % (
-                           i, t, o, fresh(t), texts[:i]), dict(kind='history', texts=texts[:i + 1]))
+                       'parse #%d of %r on a reused engine (entry point %s) gave %r, a fresh engine gives %r (history %r)' % (
+                           i, t, sty, o, expected(sty, t), texts[:i]), dict(kind='history', texts=texts[:i + 1], style=sty))
                 break
         if res.failures:
             break
@@ -366,6 +458,8 @@ def run(env, res):
                 cover.note(texts, s.trace)
             if family:
                 stats[family] = stats.get(family, 0) + 1
+            for sty_ in styles or ():
+                stats['entry:' + sty_] = stats.get('entry:' + sty_, 0) + 1
             switches = sum(1 for a, b in zip(s.trace, s.trace[1:]) if a != b) if hasattr(s, 'trace') else 0
             res.case(('s', tuple(texts), tuple(schedule), tuple(styles or ())), nontrivial=len(set(texts)) > 1 and switches >= 2,
                      sample=dict(kind='schedule', texts=texts, schedule=schedule, styles=styles)
@@ -376,13 +470,14 @@ def run(env, res):
                        dict(kind='schedule', texts=texts, schedule=schedule, styles=styles))
                 return False
             for i, t in enumerate(texts):
-                want = ('ret', fresh(t))
+                sty = (styles or ['plain'] * len(texts))[i]
+                want = ('ret', expected(sty, t))
                 if results[i] != want:
-                    want = ('ret', confirm(t, res))
+                    want = ('ret', confirm_expected(sty, t, res))
                 if results[i] != want:
                     report('oracle', 'interference',
                            'thread %d parsing %r under schedule %r (other texts %r) got %r; alone on a fresh engine: %r'
-                           % (i, t, s.trace, texts, results[i], fresh(t)) + (' call styles %r' % (styles,) if styles else ''),
+                           % (i, t, s.trace, texts, results[i], want[1]) + (' call styles %r' % (styles,) if styles else ''),
                            dict(kind='schedule', texts=texts, schedule=s.trace, styles=styles))
                     return False
             return True
@@ -422,7 +517,7 @@ def run(env, res):
                         rest += [2] * steps[tc]
                     rng.shuffle(rest)
                     schedule = head + rest
-                    check_case(texts, schedule, False, [STYLES[n_pair % 3], STYLES[(n_pair // 3) % 3]] + ['plain'] * (len(texts) - 2),
+                    check_case(texts, schedule, False, list(STYLE_PAIRS[n_pair % len(STYLE_PAIRS)]) + ['plain'] * (len(texts) - 2),
                                family='schedules_directed_pairs')
             # (b2) exhaustive: 2 threads x short texts (the fixed ones and generated ones that together spell every class)
             short_gen = []
@@ -443,7 +538,7 @@ def run(env, res):
                 if steps[a] + steps[b] > (10 if tier == 'quick' else 12):
                     continue
                 # all call-style pairs rotate over the text pairs (every style pair is hit many times)
-                st = [STYLES[done % 3], STYLES[(done // 3) % 3]]
+                st = list(STYLE_PAIRS[(done // 7) % len(STYLE_PAIRS)])
                 for schedule in sched.interleavings([steps[a], steps[b]]):
                     done += 1
                     if not check_case([a, b], schedule, True, st):
@@ -474,7 +569,7 @@ def run(env, res):
                 texts = [rng.choice(pool) if rng.random() < 0.5 else long_text() for _ in range(k)]
                 schedule = [i for i, t in enumerate(texts) for _ in range(steps[t])]
                 rng.shuffle(schedule)
-                check_case(texts, schedule, False, [rng.choice(STYLES) for _ in texts])
+                check_case(texts, schedule, False, [rng.choice(ALL_STYLES + ['yaql.eval']) for _ in texts])
     finally:
         uninstall()
 
